@@ -121,3 +121,25 @@ package proxy
 // Every request read from a CONNECT tunnel is answered through a responder of its own.
 //@ props C10
 //@ func Proxy.handleCONNECT
+
+// ---------------------------------------------------------------- relaying (C08)
+
+// The request sent to the origin keeps the client's path (also its escaped form), query and fragment.
+//@ props C08 C16
+//@ func changeRequestToTarget
+//@   assigns http.Request url.URL
+//@   requires req != nil && req.URL != nil
+//@   ensures req.Header == old(req.Header)
+//@   ensures [C08] result == nil ==> req.URL != nil && sid(req.URL.Path) == old(sid(req.URL.Path)) && sid(req.URL.RawPath) == old(sid(req.URL.RawPath)) && sid(req.URL.RawQuery) == old(sid(req.URL.RawQuery)) && sid(req.Method) == old(sid(req.Method))
+
+// None of the hop-by-hop header fields is left after removeHopByHopHeaders.
+//@ props C08 C16
+//@ func removeHopByHopHeaders
+//@   requires header != nil
+//@   ensures [C08] !in(header, "Connection") && !in(header, "Proxy-Connection") && !in(header, "Keep-Alive") && !in(header, "Proxy-Authenticate") && !in(header, "Proxy-Authorization") && !in(header, "Te") && !in(header, "Trailer") && !in(header, "Transfer-Encoding") && !in(header, "Upgrade")
+
+// The response handed back is the origin's answer to this request: the client
+// used does not follow redirects on its own.
+//@ props C08 C16
+//@ func sendRequestToTarget
+//@   requires req != nil && req.URL != nil && req.Header != nil
